@@ -128,6 +128,43 @@ def py_to_tla(v):
     raise ValueError(f"cannot encode {type(v)}")
 
 
+def py_to_tagged(v):
+    """Python JSON value / projected result -> tagged dict form (as ToJson prints it)."""
+    if isinstance(v, NotPassedMarker):
+        return {"k": "np"}
+    if v is None:
+        return {"k": "null"}
+    if isinstance(v, bool):
+        return {"k": "bool", "v": v}
+    if isinstance(v, int):
+        if abs(v) >= 2 ** 31:
+            raise ValueError("int outside TLC range")
+        return {"k": "num", "n": v, "d": 1, "f": False}
+    if isinstance(v, float):
+        if math.isnan(v) or math.isinf(v):
+            raise ValueError("non-finite float")
+        n, d = _frac_parts(v)
+        if abs(n) >= 2 ** 31 or d >= 2 ** 31:
+            raise ValueError("float outside TLC range")
+        return {"k": "num", "n": n, "d": d, "f": True}
+    if isinstance(v, str):
+        tla_str(v)
+        return {"k": "str", "v": v}
+    if isinstance(v, Model):
+        return {"k": "model", "cls": v.cls, "v": [[k, py_to_tagged(x)] for k, x in v.members]}
+    if isinstance(v, Anon):
+        return {"k": "anon", "v": [[k, py_to_tagged(x)] for k, x in v.members]}
+    if isinstance(v, (list, tuple)):
+        return {"k": "arr", "v": [py_to_tagged(x) for x in v]}
+    if isinstance(v, dict):
+        for k in v:
+            if not isinstance(k, str):
+                raise ValueError("non-string key")
+            tla_str(k)
+        return {"k": "obj", "v": [[k, py_to_tagged(x)] for k, x in v.items()]}
+    raise ValueError(f"cannot encode {type(v).__name__}")
+
+
 def _pairs(items):
     return "<<" + ", ".join("<<%s, %s>>" % (tla_str(k), py_to_tla(x)) for k, x in items) + ">>"
 
